@@ -19,6 +19,13 @@ theorem match_iff_glob (pat name : List Char) :
     implMatch (Facts.dotNL.getD false) pat name = true ↔ Glob pat name := by
   rw [fact_dotNL]; exact implMatch_iff_glob pat name
 
+/-- The statement's own wording: the pattern matches exactly when its literal pieces (the
+pattern split at '*') occur in the name in order, anchored at both ends, with each '*'
+standing for an arbitrary (possibly empty) run of characters. -/
+theorem match_iff_pieces (pat name : List Char) :
+    implMatch true pat name = true ↔ ∃ gaps, assemble (splitStar pat) gaps = some name := by
+  rw [implMatch_iff_glob]; exact glob_iff_pieces pat name
+
 /-- A pattern without '*' matches only the identical name. -/
 theorem nostar_exact (pat name : List Char) (h : pat.contains '*' = false) :
     implMatch true pat name = true ↔ pat = name := by
@@ -64,6 +71,7 @@ theorem allow_mono (d : Bool) (rs rs' : Rules) (a : String) (n : List Char)
 /-- D1 witness: without flag `s`, '*' does not match across a newline; with it, it does. -/
 example : implMatch false ['*'] ['a', '\n', 'b'] = false := by decide
 example : implMatch true ['*'] ['a', '\n', 'b'] = true := by decide
+example : assemble (splitStar "dev/*/db".toList) ["prod".toList] = some "dev/prod/db".toList := by decide
 /-- non-vacuity of `allow_iff` -/
 example : allow true [{ actions := ["get"], secrets := ["dev/*".toList] }] "get" "dev/x".toList = true := by decide
 
